@@ -1,0 +1,67 @@
+//go:build verif
+
+/*
+ Licensed to the Apache Software Foundation (ASF) under one
+ or more contributor license agreements.  See the NOTICE file
+ distributed with this work for additional information
+ regarding copyright ownership.  The ASF licenses this file
+ to you under the Apache License, Version 2.0 (the
+ "License"); you may not use this file except in compliance
+ with the License.  You may obtain a copy of the License at
+
+     http://www.apache.org/licenses/LICENSE-2.0
+
+ Unless required by applicable law or agreed to in writing, software
+ distributed under the License is distributed on an "AS IS" BASIS,
+ WITHOUT WARRANTIES OR CONDITIONS OF ANY KIND, either express or implied.
+ See the License for the specific language governing permissions and
+ limitations under the License.
+*/
+
+package scheduler
+
+import (
+	"sort"
+
+	"github.com/apache/yunikorn-core/pkg/handler"
+	"github.com/apache/yunikorn-core/pkg/rmproxy/rmevent"
+	"github.com/apache/yunikorn-scheduler-interface/lib/go/si"
+)
+
+// Verification hooks (build tag verif): synchronous, single-goroutine entry points on the cluster context.
+
+func (cc *ClusterContext) VerifSetEventHandler(h handler.EventHandler) { cc.setEventHandler(h) }
+
+func (cc *ClusterContext) VerifSchedule() bool { return cc.schedule() }
+
+func (cc *ClusterContext) VerifHandleNodes(req *si.NodeRequest) {
+	cc.handleRMUpdateNodeEvent(&rmevent.RMUpdateNodeEvent{Request: req})
+}
+
+func (cc *ClusterContext) VerifHandleApps(req *si.ApplicationRequest) {
+	cc.handleRMUpdateApplicationEvent(&rmevent.RMUpdateApplicationEvent{Request: req})
+}
+
+func (cc *ClusterContext) VerifHandleAllocations(req *si.AllocationRequest) {
+	cc.handleRMUpdateAllocationEvent(&rmevent.RMUpdateAllocationEvent{Request: req})
+}
+
+// VerifCounters returns the allocation, placeholder allocation and reservation counters of the partition.
+func (pc *PartitionContext) VerifCounters() (int, int, int) {
+	pc.RLock()
+	defer pc.RUnlock()
+	return pc.allocations, pc.placeholderAllocations, pc.reservations
+}
+
+func (pc *PartitionContext) VerifForeignAllocs() []string {
+	pc.RLock()
+	defer pc.RUnlock()
+	out := make([]string, 0, len(pc.foreignAllocs))
+	for k := range pc.foreignAllocs {
+		out = append(out, k)
+	}
+	sort.Strings(out)
+	return out
+}
+
+func (pc *PartitionContext) VerifCleanupExpiredApps() { pc.cleanupExpiredApps() }
